@@ -267,6 +267,7 @@ def replay(binary, wd, tlc_out, tables="plain", adapters="go", workers=None, per
                               "expected": "the hub process stays alive", "actual": c["what"] + " in " + c["where"],
                               "note": c["log_tail"]}]}]
         return tot, results
+    attach_replay_input(results, tlc_out, test, adapters, extra_env)
     tot = {"behaviours": 0, "replays": 0, "checks": 0, "skipped": 0, "nontrivial_distinct": 0, "diverging": 0,
            "errors": 0, "samples": []}
     for s in summaries:
@@ -278,6 +279,34 @@ def replay(binary, wd, tlc_out, tables="plain", adapters="go", workers=None, per
     log(f"[replay] {label}: behaviours={tot['behaviours']} replays={tot['replays']} checks={tot['checks']} "
         f"diverging={tot['diverging']} errors={tot['errors']} wall={tot['wall_s']}s")
     return tot, results
+
+
+TLC_TAGS = {"TestReplay": "TRACE", "TestCrash": "TRACE", "TestNamespace": "NTRACE", "TestErrorHandling": "CASE",
+            "TestAuthz": "ACASE", "TestAuthzPersist": "PCASE", "TestJobConfigs": "JCFG", "TestParser": "DOC"}
+
+
+def attach_replay_input(results, tlc_out, test, adapters, extra_env):
+    """Give every diverging result what bin/replay needs to execute it again: the header lines and the one
+    behaviour / case line TLC emitted for it (the TLC output file itself is deleted after the stage)."""
+    want = {r["idx"] for r in results if r.get("divs") and r.get("idx", -1) >= 0}
+    if not want or not os.path.exists(tlc_out):
+        return
+    want = set(sorted(want)[:40])
+    tag = '<<"%s", ' % TLC_TAGS.get(test, "TRACE")
+    headers, raw, idx = [], {}, 0
+    with open(tlc_out, errors="replace") as fh:
+        for line in fh:
+            if line.startswith(('<<"HEADER", ', '<<"JHEADER", ', '<<"MHEADER", ')):
+                headers.append(line.rstrip("\n"))
+            elif line.startswith(tag):
+                if idx in want:
+                    raw[idx] = line.rstrip("\n")
+                idx += 1
+    for r in results:
+        if r.get("idx", -1) in raw and r.get("divs"):
+            r["replay_input"] = {"test": test, "lines": headers + [raw[r["idx"]]], "idx": r["idx"],
+                                 "table": r.get("table") or "plain", "adapters": adapters,
+                                 "extra_env": {k: v for k, v in (extra_env or {}).items() if "{" not in v}}
 
 
 # ----------------------------------------------------------------------------
@@ -331,7 +360,7 @@ class Verdict:
                 path = os.path.join(self.wd, "replay-%s-%d.json" % (label or "x", n))
                 with open(path, "w") as fh:
                     json.dump({"property": self.prop, "stage": label, "behaviour": r.get("steps", []), "table": r["table"],
-                               "adapter": r["adapter"], "divergence": d}, fh, indent=1)
+                               "adapter": r["adapter"], "divergence": d, "replay_input": r.get("replay_input")}, fh, indent=1)
                 if len(self.violations) < 5:
                     self.violations.append(("%s: %s query=%s expected=%s actual=%s" % (
                         label, d["kind"], json.dumps(d["query"]), json.dumps(d["expected"])[:300], json.dumps(d["actual"])[:300]), path))
